@@ -14,6 +14,11 @@ the explicit call contract `Contract` (a structure parameter, not an axiom).
 -/
 import Proofs.ImplV2Lists
 import Proofs.ZlibLoop
+import Proofs.ImplV1Lists
+import Proofs.ImplV1Beat
+import Proofs.DecodeSteps
+import Proofs.DecodeReads
+import Proofs.BlobLevel
 
 namespace EngineModel.Properties.C05
 open EngineModel EngineModel.Codec EngineModel.V2 EngineModel.Impl.V2
@@ -24,15 +29,18 @@ theorem C05_v2_track_safe (bs : Bytes) (u : Ub) : decodeTrack bs ≠ .ub u := by
   rw [decodeTrack_eq]; exact liftDec_never_ub _ _ _
 theorem C05_v2_beat_safe (bs : Bytes) (u : Ub) : decodeBeat bs ≠ .ub u := by
   rw [decodeBeat_eq]; exact liftDec_never_ub _ _ _
-theorem C05_v2_ovw_safe (bs : Bytes) (u : Ub) : decodeOvw bs ≠ .ub u := by
-  rw [decodeOvw_eq]; exact liftDec_never_ub _ _ _
+/-- `hlen`: the payload is a C++ byte vector (`vector::max_size()` = 2^63 − 1).  The length test computes
+`3 * (num_entries_1 + 1)` in `int64_t`, checked in the Model: this theorem says the tests in front of it
+keep it in range, for every byte string a vector can hold. -/
+theorem C05_v2_ovw_safe (bs : Bytes) (hlen : bs.length < maxCount) (u : Ub) : decodeOvw bs ≠ .ub u := by
+  rw [decodeOvw_eq bs hlen]; exact liftDec_never_ub _ _ _
 theorem C05_v2_cues_safe (bs : Bytes) (u : Ub) : decodeCues bs ≠ .ub u := by
   rw [decodeCues_eq]; exact liftDec_never_ub _ _ _
 theorem C05_v2_loops_safe (bs : Bytes) (u : Ub) : decodeLoops bs ≠ .ub u := by
   rw [decodeLoops_eq]; exact liftDec_never_ub _ _ _
 
 /-- The only exception class of the 2.x payload decoders is `invalid_argument`. -/
-theorem C05_v2_throw_class (bs : Bytes) (e : Exn) :
+theorem C05_v2_throw_class (bs : Bytes) (hlen : bs.length < maxCount) (e : Exn) :
     (decodeTrack bs = .throw e ∨ decodeBeat bs = .throw e ∨ decodeOvw bs = .throw e ∨
       decodeCues bs = .throw e ∨ decodeLoops bs = .throw e) → e = .invalid_argument := by
   have key : ∀ {α} (c : Codec α) (bs : Bytes), liftDec c bs = .throw e → e = .invalid_argument := by
@@ -40,7 +48,7 @@ theorem C05_v2_throw_class (bs : Bytes) (e : Exn) :
     unfold liftDec at h
     split at h <;> simp at h
     exact h.symm
-  rw [decodeTrack_eq, decodeBeat_eq, decodeOvw_eq, decodeCues_eq, decodeLoops_eq]
+  rw [decodeTrack_eq, decodeBeat_eq, decodeOvw_eq bs hlen, decodeCues_eq, decodeLoops_eq]
   rintro (h | h | h | h | h) <;> exact key _ _ h
 
 /-! ## the decompression loops -/
@@ -89,5 +97,301 @@ theorem C05_unz_safe (buf : Bytes) (u : Ub) : unz buf ≠ .ub u := by
     cases EngineModel.Zlib.inflate (buf.drop 4) with
     | none => simp
     | some p => simp
+
+/-! ## schema 1.x payload decoders: no undefined behaviour on any input
+
+The Model decoders of `Impl.V1` read through the same cursor monad (every read past the buffer
+is `ub oob_read`; the label `assign`, the `ptr += 3` / `ptr += 6` over the maximum entry are
+`takeN`).  Five of them equal the Spec's verdict on every byte string (`Proofs/ImplV1*.lean`), the
+beat-data decoder does so outside one explicitly characterised family; in all cases the outcome is
+a value or `invalid_argument` — in particular the `runtime_error` "internal error" branches of the
+C++ are unreachable. -/
+section V1
+open EngineModel.V1Proofs
+
+theorem C05_v1_track_safe (bs : Bytes) (u : Ub) : Impl.V1.decodeTrack bs ≠ .ub u := by
+  rw [V1Proofs.decodeTrack_eq]; exact ofOpt_never_ub _ _
+theorem C05_v1_ovw_safe (bs : Bytes) (hlen : bs.length < maxCount) (u : Ub) : Impl.V1.decodeOvw bs ≠ .ub u := by
+  rw [V1Proofs.decodeOvw_eq bs hlen]; exact ofOpt_never_ub _ _
+theorem C05_v1_hires_safe (bs : Bytes) (hlen : bs.length < maxCount) (u : Ub) : Impl.V1.decodeHires bs ≠ .ub u := by
+  rw [V1Proofs.decodeHires_eq bs hlen]; exact ofOpt_never_ub _ _
+theorem C05_v1_cues_safe (bs : Bytes) (u : Ub) : Impl.V1.decodeCues bs ≠ .ub u := by
+  rw [V1Proofs.decodeCues_eq]; exact ofOpt_never_ub _ _
+theorem C05_v1_loops_safe (bs : Bytes) (u : Ub) : Impl.V1.decodeLoops bs ≠ .ub u := by
+  rw [V1Proofs.decodeLoops_eq]; exact ofOpt_never_ub _ _
+theorem C05_v1_beat_safe (bs : Bytes) (u : Ub) : Impl.V1.decodeBeat bs ≠ .ub u :=
+  decodeBeat_safe bs u
+
+/-- The only exception class of the 1.x payload decoders is `invalid_argument`. -/
+theorem C05_v1_throw_class (bs : Bytes) (hlen : bs.length < maxCount) (e : Exn) :
+    (Impl.V1.decodeTrack bs = .throw e ∨ Impl.V1.decodeBeat bs = .throw e ∨ Impl.V1.decodeOvw bs = .throw e ∨
+      Impl.V1.decodeHires bs = .throw e ∨ Impl.V1.decodeCues bs = .throw e ∨ Impl.V1.decodeLoops bs = .throw e) →
+    e = .invalid_argument := by
+  rw [V1Proofs.decodeTrack_eq, V1Proofs.decodeOvw_eq bs hlen, V1Proofs.decodeHires_eq bs hlen, V1Proofs.decodeCues_eq,
+    V1Proofs.decodeLoops_eq]
+  rintro (h | h | h | h | h | h)
+  · exact ofOpt_throw h
+  · exact decodeBeat_throw bs e h
+  · exact ofOpt_throw h
+  · exact ofOpt_throw h
+  · exact ofOpt_throw h
+  · exact ofOpt_throw h
+
+/-- The cursor monad does have `ub` outcomes (the statements are not vacuous): the unguarded loop
+body of the pre-712766a loops decoder reads the label length past the end. -/
+example : Cur.rd Codec.u8 [] = .ub .oob_read := rfl
+
+end V1
+
+/-! ## signed arithmetic never overflows
+
+Every `int64_t` / `int` sum, difference and product of the codecs whose operands are not bounded by
+their types alone is a CHECKED operation in the Model (`Chk.add64`, `Chk.mul64`, `Chk.sub32`:
+`ub signed_overflow` when the exact result leaves the type): the length tests of the three waveform
+decoders (`w * (n + 1)`), `24 * count` of the 1.x beat grid, and the `int` index difference of the 1.x
+`encode_beatgrid`.  The `_safe` theorems above therefore include "no signed overflow"; the next theorem
+states the reason: under the guards the C++ puts in front of them the checked operations are exact, i.e.
+each Model function equals its reading in unbounded `Int` (`ArithZ.*Z`, Proofs/CheckedArith.lean). -/
+section Arith
+open EngineModel.ArithZ
+
+theorem C05_checked_arith_exact :
+    (∀ bs : Bytes, bs.length < maxCount → Impl.V2.decodeOvw bs = decodeOvwZ bs) ∧
+    (∀ bs : Bytes, bs.length < maxCount → Impl.V1.decodeOvw bs = decodeWaveZ 27 3 Impl.V1.ovwEntry bs) ∧
+    (∀ bs : Bytes, bs.length < maxCount → Impl.V1.decodeHires bs = decodeWaveZ 30 6 Impl.V1.hiresEntry bs) ∧
+    Impl.V1.decodeGrid = decodeGrid1Z ∧
+    (∀ v, Impl.V1.encodeBeat v = encodeBeatZ v) :=
+  ⟨decodeOvw_eq_Z,
+   fun bs h => decodeWave_eq_Z 27 3 (by omega) (by omega) (by omega) _ bs h,
+   fun bs h => decodeWave_eq_Z 30 6 (by omega) (by omega) (by omega) _ bs h,
+   decodeGrid1_eq_Z, encodeBeat_eq_Z⟩
+
+/-- The 1.x beat-data encoder never overflows (nor any other `ub`): it returns bytes or throws. -/
+theorem C05_v1_beat_encode_safe (v : Impl.V1.Beat) (u : Ub) : Impl.V1.encodeBeat v ≠ .ub u := by
+  by_cases h : V1.gridOk v.dflt = true ∧ V1.gridOk v.adj = true
+  · rw [V1Proofs.encodeBeat_ok v h.1 h.2]; simp
+  · rw [V1Proofs.encodeBeat_reject v h]; simp
+
+/-- The guards are what prevents it: without `validate_beatgrid` the `int` difference of the indices
+`−2^31`, `2^31 − 1` overflows; without `count > 32768` the product `24 * 2^59` does; without
+`n > (end - ptr) / w` the sum `(2^63 − 1) + 1` does. -/
+theorem C05_missing_guard_overflows_counterexample :
+    Impl.V1.toWireC [⟨2147483648, 0⟩, ⟨2147483647, 0x3ff0000000000000⟩] = .ub .signed_overflow ∧
+    Chk.mul64 24 (Prim.s64 576460752303423488) = .ub .signed_overflow ∧
+    Chk.add64 (Prim.s64 9223372036854775807) 1 = .ub .signed_overflow :=
+  ⟨toWireC_overflow_counterexample, by decide, by decide⟩
+
+/-- Operand types that bound the result by themselves: the `int64_t` difference of two `int` values
+(1.x grid checks), the `int` sum of a constant and a `uint8_t` (`29 + label_length`, `22 + label_length`). -/
+theorem C05_typed_arith_in_range (a b : UInt32) (l : UInt8) :
+    Chk.sub64 (Prim.s32 a) (Prim.s32 b) = .ok (Prim.s32 a - Prim.s32 b) ∧
+    Chk.add32 29 l.toNat = .ok (29 + (l.toNat : Int)) ∧ Chk.add32 22 l.toNat = .ok (22 + (l.toNat : Int)) :=
+  ⟨sub64_s32 a b, add32_u8 29 (by omega) l, add32_u8 22 (by omega) l⟩
+
+example : (List.replicate 27 (0 : UInt8)).length < maxCount := by decide
+
+end Arith
+
+/-! ## the decompression loops with a real inflate, and the blob-level decoders
+
+`C05_uncompress_total` quantifies over every oracle with a `Contract`.  `replayOracle` is such an oracle
+built from the independent Lean inflate (`Zlib.inflate`): it swallows the stream window by window, then
+hands out the inflated bytes in pieces of at most `avail_out`, reporting `Z_STREAM_END` with the last
+piece (a rejected stream is swallowed and never ends).  It satisfies the contract, and the LOOP model
+driven by it returns exactly the result-level model `unz` the tie runs — on every blob: the loops drop,
+duplicate or reorder nothing across chunk boundaries, trailing bytes, truncated and rejected streams. -/
+section Blob
+open EngineModel.Impl.Zlib
+
+theorem C05_uncompress_replay_eq_unz (buf : Bytes) (fuel : Nat)
+    (hf : fuelBound (replayContract (streamLen (buf.drop 4))) (replayInit (buf.drop 4)) buf.length ≤ fuel) :
+    uncompress (replayOracle (streamLen (buf.drop 4))) (replayInit (buf.drop 4)) buf.length fuel buf = unz buf :=
+  uncompress_replay_eq_unz buf fuel hf
+
+/-- the fuel is explicit: inflated length + 3 · (blob length − 4) + 1 -/
+theorem C05_replay_fuel (L : Option Nat) (s0 : RState) (n : Nat) :
+    fuelBound (replayContract L) s0 n = s0.left.length + 3 * (n - 4) + 1 := replay_fuel L s0 n
+
+/-- non-vacuity: a concrete stored-block stream through the loops with the replay oracle -/
+example : uncompress (replayOracle (streamLen (EngineModel.Zlib.deflateStored [1, 2, 3])))
+    (replayInit (EngineModel.Zlib.deflateStored [1, 2, 3])) 18 40 (EngineModel.Zlib.frame [1, 2, 3]) = .ok [1, 2, 3] := by
+  decide
+
+/-- `from_blob` / `decode` on a stored blob = decompression, then the payload decoder
+(`Impl/Blob.lean`): never undefined behaviour, for all eleven kinds.  (Waveform kinds: the inflated
+payload is a C++ byte vector, fewer than 2^63 bytes.) -/
+theorem C05_fromBlob_safe (blob : Bytes) (u : Ub) :
+    Impl.Blob.fromBlobTrack2 blob ≠ .ub u ∧ Impl.Blob.fromBlobBeat2 blob ≠ .ub u ∧
+    Impl.Blob.fromBlobCues2 blob ≠ .ub u ∧ Impl.Blob.fromBlobLoops2 blob ≠ .ub u ∧
+    Impl.Blob.fromBlobTrack1 blob ≠ .ub u ∧ Impl.Blob.fromBlobBeat1 blob ≠ .ub u ∧
+    Impl.Blob.fromBlobCues1 blob ≠ .ub u ∧ Impl.Blob.fromBlobLoops1 blob ≠ .ub u ∧
+    ((∀ p, unz blob = .ok p → p.length < maxCount) →
+      Impl.Blob.fromBlobOvw2 blob ≠ .ub u ∧ Impl.Blob.fromBlobOvw1 blob ≠ .ub u ∧
+      Impl.Blob.fromBlobHires1 blob ≠ .ub u) := by
+  refine ⟨fromBlob_never_ub _ blob (fun p _ u => C05_v2_track_safe p u) u,
+    fromBlob_never_ub _ blob (fun p _ u => C05_v2_beat_safe p u) u,
+    fromBlob_never_ub _ blob (fun p _ u => C05_v2_cues_safe p u) u,
+    C05_v2_loops_safe blob u,
+    fromBlob_never_ub _ blob (fun p _ u => C05_v1_track_safe p u) u,
+    fromBlob_never_ub _ blob (fun p _ u => C05_v1_beat_safe p u) u,
+    fromBlob_never_ub _ blob (fun p _ u => C05_v1_cues_safe p u) u,
+    C05_v1_loops_safe blob u, fun hp => ⟨?_, ?_, ?_⟩⟩
+  · exact fromBlob_never_ub _ blob (fun p h u => C05_v2_ovw_safe p (hp p h) u) u
+  · exact fromBlob_never_ub _ blob (fun p h u => C05_v1_ovw_safe p (hp p h) u) u
+  · exact fromBlob_never_ub _ blob (fun p h u => C05_v1_hires_safe p (hp p h) u) u
+
+end Blob
+
+/-! ## step bound: no embedded count can make a decoder spin
+
+Termination is structural (`forN` recurses on the count); the content is the bound.  `Proofs/DecodeSteps.lean`
+exposes, for every count-prefixed loop, the loop inside the real decoder Model (`*_shape`: decoder =
+`if guards then forN body count … else throw`), instruments `forN` with a tick per body run
+(`forNTicks`, whose first component IS `forN` and whose second is `forNIters`), and bounds the total
+number of loop-body executions `iters… bs` of each decoder by the input length divided by the minimum
+entry size.  Each body execution performs a bounded number of primitive reads (≤ 7 for a loop entry,
+≤ 4 for a cue, 4 for a marker, 3 / 6 for a waveform entry); both `decodeTrack`s and the 2.x `decodeOvw`
+have no loop at all. -/
+section Steps
+open EngineModel.Steps
+
+theorem C05_decode_steps (bs : Bytes) :
+    itersCuesV2 bs ≤ bs.length / 13 ∧ itersLoopsV2 bs ≤ bs.length / 23 ∧ itersBeatV2 bs ≤ bs.length / 24 ∧
+    itersCuesV1 bs ≤ bs.length / 13 ∧ itersLoopsV1 bs ≤ bs.length / 23 ∧ itersBeatV1 bs ≤ bs.length / 24 ∧
+    itersOvwV1 bs ≤ bs.length / 3 ∧ itersHiresV1 bs ≤ bs.length / 6 :=
+  ⟨decode_steps_v2_cues bs, decode_steps_v2_loops bs, decode_steps_v2_beat bs, decode_steps_v1_cues bs,
+   decode_steps_v1_loops bs, decode_steps_v1_beat bs, decode_steps_v1_ovw bs, decode_steps_v1_hires bs⟩
+
+/-- The 1.x beat-data decoder never reads more than 2 × 32768 markers, whatever the input length. -/
+theorem C05_decode_steps_v1_beat_abs (bs : Bytes) : itersBeatV1 bs ≤ 65536 := decode_steps_v1_beat_abs bs
+
+/-- The counted quantity is the loop of the real decoder: the instrumented loop returns exactly what
+`forN` returns, and its tick count is `forNIters`, which never exceeds the count. -/
+theorem C05_decode_steps_faithful {α} (body : Cur α) (n : Nat) (bs : Bytes) :
+    (forNTicks body n bs).1 = Cur.forN body n bs ∧ (forNTicks body n bs).2 = forNIters body n bs ∧
+    forNIters body n bs ≤ n :=
+  ⟨forNTicks_fst body n bs, forNTicks_snd body n bs, forNIters_le body n bs⟩
+
+/-- …and the decoders are that loop behind their guards (two instances; the others are in
+Proofs/DecodeSteps.lean: `decodeCues_shape`, `decodeGrid_shape`, `decodeGrid1_shape`, …). -/
+theorem C05_decode_steps_shape_v2_loops (bs : Bytes) : Impl.V2.decodeLoops bs =
+    if loopsEntered bs then
+      ((Cur.forN Impl.V2.decodeLoop (loopsCount bs) >>= fun ls => (do let extra ← Cur.rest; pure (ls, extra)))
+        (bs.drop 8)).bind (fun p => .ok p.1)
+    else .throw .invalid_argument := decodeLoops_shape bs
+
+/-- The other decoders, likewise `if guards then (forN body count …) else throw` with the guards
+(`cuesEntered`, `gridEntered`, `grid1Entered`, `waveEntered`) and counts explicit — so the `iters…` functions
+bounded by `C05_decode_steps` are the loops of the decoders themselves (statements: Proofs/DecodeSteps.lean). -/
+theorem C05_decode_steps_shape_v2_cues : type_of% @decodeCues_shape := @decodeCues_shape
+theorem C05_decode_steps_shape_v2_grid : type_of% @decodeGrid_shape := @decodeGrid_shape
+theorem C05_decode_steps_shape_v2_beat : type_of% @decodeBeat_shape := @decodeBeat_shape
+theorem C05_decode_steps_shape_v1_cues : type_of% @decodeCues1_shape := @decodeCues1_shape
+theorem C05_decode_steps_shape_v1_loops : type_of% @decodeLoops1_shape := @decodeLoops1_shape
+theorem C05_decode_steps_shape_v1_grid : type_of% @decodeGrid1_shape := @decodeGrid1_shape
+theorem C05_decode_steps_shape_v1_beat : type_of% @decodeBeat1_shape := @decodeBeat1_shape
+theorem C05_decode_steps_shape_v1_ovw : type_of% @decodeOvw1_shape := @decodeOvw1_shape
+theorem C05_decode_steps_shape_v1_hires : type_of% @decodeHires1_shape := @decodeHires1_shape
+
+/-- non-vacuity: a count of 2^61 in an 8-byte loops payload is stopped by the guard, zero iterations -/
+example : itersLoopsV2 [0, 0, 0, 0, 0, 0, 0, 0x20] = 0 := by decide
+
+end Steps
+
+/-! ## from loop-body executions to cursor reads
+
+`Proofs/DecodeReads.lean`.  (A) Each iteration of each count-prefixed loop returns having advanced the
+cursor by EXACTLY its record size, or throws `invalid_argument`, or — only when fewer bytes than one
+primitive remain, which the guards of the decoders exclude (`_safe`) — is an out-of-bounds read.
+(B) The eleven decoders are written once more in the cursor monad WITH a counter of primitive cursor
+actions (`CurT`: one tick per `decode_uint8/int32/int64/double` call and per bulk copy; pointer
+arithmetic is free; a colour / a marker is the 4 primitive calls the C++ makes); dropping the counter
+gives exactly the Model decoder on every input (`C05_decode_reads_faithful`), and the counter is bounded
+linearly in the input length (`C05_decode_reads`). -/
+section Reads
+open EngineModel.Reads
+
+/-- (A) per iteration: exact record size, or no return. -/
+theorem C05_iteration_consumes (bs : Bytes) :
+    ((∃ q, Impl.V2.decodeCue bs = .ok (q, bs.drop (13 + q.label.length)) ∧ 13 + q.label.length + 17 ≤ bs.length) ∨
+      Impl.V2.decodeCue bs = .throw .invalid_argument ∨ (bs = [] ∧ Impl.V2.decodeCue bs = .ub .oob_read)) ∧
+    ((∃ l, Impl.V2.decodeLoop bs = .ok (l, bs.drop (23 + l.label.length)) ∧ 23 + l.label.length ≤ bs.length) ∨
+      Impl.V2.decodeLoop bs = .throw .invalid_argument) ∧
+    ((∃ q o, Impl.V2.decodeCue bs = .ok (q, bs.drop (13 + q.label.length)) ∧
+        Impl.V1.decodeCue bs = .ok (o, bs.drop (13 + q.label.length)) ∧ 13 + q.label.length + 17 ≤ bs.length) ∨
+      Impl.V1.decodeCue bs = .throw .invalid_argument ∨ (bs = [] ∧ Impl.V1.decodeCue bs = .ub .oob_read)) ∧
+    ((∃ l o, Impl.V2.decodeLoop bs = .ok (l, bs.drop (23 + l.label.length)) ∧
+        Impl.V1.decodeLoop bs = .ok (o, bs.drop (23 + l.label.length)) ∧ 23 + l.label.length ≤ bs.length) ∨
+      Impl.V1.decodeLoop bs = .throw .invalid_argument) ∧
+    ((∃ m, Cur.rd V2.marker bs = .ok (m, bs.drop 24) ∧ 24 ≤ bs.length) ∨ Cur.rd V2.marker bs = .ub .oob_read) ∧
+    ((∃ e, Impl.V1.ovwEntry bs = .ok (e, bs.drop 3) ∧ 3 ≤ bs.length) ∨ Impl.V1.ovwEntry bs = .ub .oob_read) ∧
+    ((∃ e, Impl.V1.hiresEntry bs = .ok (e, bs.drop 6) ∧ 6 ≤ bs.length) ∨ Impl.V1.hiresEntry bs = .ub .oob_read) :=
+  ⟨decodeCue_iter bs, decodeLoop_iter bs, decodeCue1_iter bs, decodeLoop1_iter bs, marker_iter bs,
+   ovwEntry_iter bs, hiresEntry_iter bs⟩
+
+/-- (A) a completed loop has consumed exactly the sum of its record sizes and produced `n` entries. -/
+theorem C05_loop_consumes_exact {α} {body : Cur α} {size : α → Nat}
+    (hb : ∀ bs a r, body bs = .ok (a, r) → r = bs.drop (size a) ∧ size a ≤ bs.length)
+    (n : Nat) (bs : Bytes) (l : List α) (r : Bytes) (h : Cur.forN body n bs = .ok (l, r)) :
+    r = bs.drop (l.map size).sum ∧ (l.map size).sum ≤ bs.length ∧ l.length = n :=
+  forN_consumes_exact hb n bs l r h
+
+/-- non-vacuity: the quick-cue body satisfies the hypothesis with `size q = 13 + label bytes` -/
+example : ∀ bs q r, Impl.V2.decodeCue bs = .ok (q, r) →
+    r = bs.drop (13 + q.label.length) ∧ 13 + q.label.length ≤ bs.length := decodeCue_consumes
+
+/-- (B) the counted decoders ARE the Model decoders: forgetting the counter gives `Impl.V2.* / Impl.V1.*`
+on every byte string; likewise the loop bodies. -/
+theorem C05_decode_reads_faithful (bs : Bytes) :
+    (decodeTrackT bs).1 = Impl.V2.decodeTrack bs ∧ (decodeBeatT bs).1 = Impl.V2.decodeBeat bs ∧
+    (decodeOvwT bs).1 = Impl.V2.decodeOvw bs ∧ (decodeCuesT bs).1 = Impl.V2.decodeCues bs ∧
+    (decodeLoopsT bs).1 = Impl.V2.decodeLoops bs ∧
+    (decodeTrack1T bs).1 = Impl.V1.decodeTrack bs ∧ (decodeBeat1T bs).1 = Impl.V1.decodeBeat bs ∧
+    (decodeWaveT 27 3 ovwEntryT bs).1 = Impl.V1.decodeOvw bs ∧
+    (decodeWaveT 30 6 hiresEntryT bs).1 = Impl.V1.decodeHires bs ∧
+    (decodeCues1T bs).1 = Impl.V1.decodeCues bs ∧ (decodeLoops1T bs).1 = Impl.V1.decodeLoops bs ∧
+    CurT.erase decodeCueT = Impl.V2.decodeCue ∧ CurT.erase decodeLoopT = Impl.V2.decodeLoop ∧
+    CurT.erase decodeCue1T = Impl.V1.decodeCue ∧ CurT.erase decodeLoop1T = Impl.V1.decodeLoop ∧
+    CurT.erase rdMarkerT = Cur.rd V2.marker ∧ CurT.erase rdColorT = Cur.rd V2.color ∧
+    CurT.erase ovwEntryT = Impl.V1.ovwEntry ∧ CurT.erase hiresEntryT = Impl.V1.hiresEntry ∧
+    CurT.erase decodeGridT = Impl.V2.decodeGrid ∧ CurT.erase decodeGrid1T = Impl.V1.decodeGrid := by
+  refine ⟨decodeTrackT_fst bs, decodeBeatT_fst bs, decodeOvwT_fst bs, decodeCuesT_fst bs, decodeLoopsT_fst bs,
+    decodeTrack1T_fst bs, decodeBeat1T_fst bs, ?_, ?_, decodeCues1T_fst bs, decodeLoops1T_fst bs,
+    erase_decodeCueT, erase_decodeLoopT, erase_decodeCue1T, erase_decodeLoop1T, erase_rdMarkerT, erase_rdColorT,
+    erase_ovwEntryT, erase_hiresEntryT, erase_decodeGridT, erase_decodeGrid1T⟩
+  · rw [decodeWaveT_fst, erase_ovwEntryT]; rfl
+  · rw [decodeWaveT_fst, erase_hiresEntryT]; rfl
+
+/-- (B) per executed iteration: at most 7 primitive cursor actions for a quick cue (length byte, label copy,
+offset, four colour bytes), 10 for a loop, 4 for a beat-grid marker, 3 / 6 for a waveform entry. -/
+theorem C05_iteration_reads (bs : Bytes) :
+    CurT.ticks decodeCueT bs ≤ 7 ∧ CurT.ticks decodeLoopT bs ≤ 10 ∧ CurT.ticks decodeCue1T bs ≤ 7 ∧
+    CurT.ticks decodeLoop1T bs ≤ 10 ∧ CurT.ticks rdMarkerT bs ≤ 4 ∧ CurT.ticks ovwEntryT bs ≤ 3 ∧
+    CurT.ticks hiresEntryT bs ≤ 6 :=
+  ⟨ticks_decodeCueT_le bs, ticks_decodeLoopT_le bs, ticks_decodeCue1T_le bs, ticks_decodeLoop1T_le bs,
+   ticks_rdMarkerT_le bs, ticks_ovwEntryT_le bs, ticks_hiresEntryT_le bs⟩
+
+/-- (B) **cursor reads of every decoder are linear in the input length**, for every byte string: the second
+component of the counted decoder is the number of primitive cursor actions the Model decoder performs.
+(1.x beat data: the trailing `while (ptr != end)` zero check reads each remaining byte once.) -/
+theorem C05_decode_reads (bs : Bytes) :
+    (decodeTrackT bs).2 ≤ 7 ∧ (decodeOvwT bs).2 ≤ 6 ∧ (decodeTrack1T bs).2 ≤ 4 ∧
+    (decodeCuesT bs).2 ≤ 7 * (bs.length / 13) + 5 ∧ (decodeLoopsT bs).2 ≤ 10 * (bs.length / 23) + 2 ∧
+    (decodeBeatT bs).2 ≤ 4 * (bs.length / 24) + 6 ∧
+    (decodeCues1T bs).2 ≤ 7 * (bs.length / 13) + 4 ∧ (decodeLoops1T bs).2 ≤ 10 * (bs.length / 23) + 1 ∧
+    (decodeBeat1T bs).2 ≤ 4 * (bs.length / 24) + bs.length + 5 ∧
+    (decodeWaveT 27 3 ovwEntryT bs).2 ≤ 3 * (bs.length / 3) + 4 ∧
+    (decodeWaveT 30 6 hiresEntryT bs).2 ≤ 6 * (bs.length / 6) + 4 :=
+  ⟨decodeTrackT_reads bs, decodeOvwT_reads bs, decodeTrack1T_reads bs, decodeCuesT_reads bs, decodeLoopsT_reads bs,
+   decodeBeatT_reads bs, decodeCues1T_reads bs, decodeLoops1T_reads bs, decodeBeat1T_reads bs,
+   decodeWaveT_reads 27 3 (by omega) (by omega) ovwEntryT 3 ticks_ovwEntryT_le bs,
+   decodeWaveT_reads 30 6 (by omega) (by omega) hiresEntryT 6 ticks_hiresEntryT_le bs⟩
+
+/-- non-vacuity: the counter does count — a valid 2.x loops payload with one entry costs 1 + 10 + 1 reads,
+and an absurd count costs one read (the count itself) before the guard rejects it. -/
+example : (decodeLoopsT ([1, 0, 0, 0, 0, 0, 0, 0] ++ [0] ++ List.replicate 22 7)).2 = 12 := by decide
+example : (decodeLoopsT [0, 0, 0, 0, 0, 0, 0, 0x20]).2 = 1 := by decide
+
+end Reads
 
 end EngineModel.Properties.C05
